@@ -36,6 +36,7 @@ QuickTrees == {t \in Grow(6, GoodKinds, 2, 3, 3, 0) : NoEmptyStream(t)}
 ThoroughTrees == Grow(7, GoodKinds, 2, 3, 3, 0) \cup Grow(6, AllKinds, 2, 3, 3, 1)
 SimTrees == {t \in Grow(8, GoodKinds, 3, 4, 3, 0) : NoEmptyStream(t) /\ HasOp(t)}
             \cup {t \in Grow(6, AllKinds, 2, 3, 3, 1) : NoEmptyStream(t) /\ HasOp(t)}
+SimTreesOk == {t \in Grow(8, GoodKinds, 3, 4, 3, 0) : NoEmptyStream(t) /\ HasOp(t) /\ Len(t) >= 5}
 SelfTestTrees == {t \in Grow(4, AllKinds, 1, 2, 2, 1) : NoEmptyStream(t)}
 
 MC123 == {0, 1, 2, 3}
